@@ -132,8 +132,8 @@ MEDIA_USE = {'video': 'VIDEO', 'audio': 'AUDIO', 'text': 'TEXT'}
 
 INTEGRATION_VALUES = {
     'start': ['epoch', 'today', '2024-03-01T00:00:00Z', '2024-03-01T01:00:00+01:00', '2024-02-29T14:30:00-09:30'],
-    'depth': ['30', '60'],
-    'leeway': ['0', '60'],
+    'depth': ['30', '60', 'none'],
+    'leeway': ['0', '60', 'none'],
     'drm': ['all', 'playready', 'clearkey', 'marlin', 'playready-moov', 'playready-cenc-pro', 'clearkey-moov,marlin',
             'playready-pro,clearkey-cenc'],
     'playready__la_url': [urllib.parse.quote_plus(u) for u in URLS[:6]],
@@ -149,9 +149,9 @@ INTEGRATION_VALUES = {
     'scte35__program_id': ['1000'],
     'bugs': ['saio'],
     'verr': ['404=5', '503=5', '404=5,503=7'], 'aerr': ['404=5', '503=5'], 'terr': ['404=2', '503=2'],
-    'failures': ['1', '2'],
+    'failures': ['1', '2', 'none'],
     'vcorrupt': ['12:00:04Z'], 'frames': ['2'],
-    'drift': ['10'], 'time_value': ['abc'],
+    'drift': ['10', 'none'], 'time_value': ['abc'], 'mup': ['4', 'none', '-1'],
 }
 NEEDS = {   # companion options required for a value to have any effect
     'playready__la_url': {'drm': 'playready'}, 'marlin__la_url': {'drm': 'marlin'}, 'clearkey__la_url': {'drm': 'clearkey'},
